@@ -20,6 +20,7 @@ import itertools
 import json
 import os
 import random
+import shutil
 import time
 from fractions import Fraction
 from pathlib import Path
@@ -497,11 +498,149 @@ def trace_of(case):
     else:
         rows, thr = pixels_at_render_resolution(src, rw, rh, case["alpha"], tbg)
         oracle = "pillow"
-    out = render_block(src.copy(), rw, rh, case["alpha"], case["split"], via)
+    handed = src.copy()
+    out = render_block(handed, rw, rh, case["alpha"], case["split"], via)
     stream = lex_checked(out, case)
     return dict(rw=rw, rh=rh, kitty=bool(case["kitty"]), tbg=list(tbg or []), thr=thr,
                 uniform=len(set(src.getdata())) == 1, exp=cells_of(rows, rw, rh),
+                srcb=pil_shape(src), srca=pil_shape(handed),
                 toks=stream.toks, gfx=[]), oracle
+
+
+def pil_shape(img):
+    return [img.size[0], img.size[1], img.mode]
+
+
+# ----------------------------------------------------------------------------------------------
+# code -> spec: multi-render histories on ONE image object (seeded/C02-w1)
+# ----------------------------------------------------------------------------------------------
+HIST_KINDS = ["pil-jpeg", "pil-png", "pil-gif", "pil-mem", "file-jpeg", "file-png", "file-gif"]
+HIST_SHAPES = ["small-large", "large-small-large", "seek", "ratio"]
+HIST_ALPHAS = [None, 40 / 255, 0.5, "#", "#a0b1c2"]
+
+
+def gen_histories(rng: random.Random, tier: str):
+    reps = 1 if tier == "quick" else 8
+    for kind in HIST_KINDS:
+        for shape in HIST_SHAPES:
+            for r in range(reps * (2 if kind == "pil-jpeg" else 1)):
+                yield dict(src=kind, shape=shape, seed=rng.randrange(1 << 30),
+                           kitty=rng.random() < 0.4, tbg=rng.choice(TERM_BGS))
+
+
+def hist_source(h, rng: random.Random):
+    """Build the source of a history; returns (path or None, pristine PIL image or None, frames)."""
+    from PIL import Image
+
+    fmt = h["src"].split("-")[1]
+    W, H = rng.choice([(32, 32), (24, 16), (16, 24), (40, 16)])
+    d = OUTDIR / f"hist-{os.getpid()}"
+    d.mkdir(parents=True, exist_ok=True)
+    if fmt == "mem":
+        return None, imgs.make_image(rng, rng.choice(MODES), W, H, "mixed"), 1
+    if fmt == "gif":
+        path = d / f"h{h['seed']}.gif"
+        n = rng.choice([3, 4])
+        imgs.make_animation(rng, path, n, W, H)
+        return str(path), None, n
+    if fmt == "jpeg":
+        mode = rng.choice(["RGB", "RGB", "L", "CMYK"])
+        base = Image.new("RGB", (W, H))
+        base.putdata([  # coarse tiles + per-pixel detail: any rescaling of the decode is visible
+            tuple(min(255, 60 * ((x // 4 + y // 4 + c) % 4) + rng.randrange(64)) for c in range(3))
+            for y in range(H) for x in range(W)
+        ])
+        path = d / f"h{h['seed']}.jpg"
+        base.convert(mode).save(path, "JPEG", quality=95, subsampling=0)
+        return str(path), None, 1
+    mode = rng.choice(["RGBA", "RGBA", "LA", "P", "RGB"])
+    path = d / f"h{h['seed']}.png"
+    imgs.make_image(rng, mode, W, H, "mixed").save(path)
+    return str(path), None, 1
+
+
+def hist_ops(h, rng: random.Random, W: int, H: int, frames: int):
+    small = ("size", max(1, W // rng.choice([4, 8])), max(1, H // rng.choice([8, 16])))
+    large = ("size", W, H // 2)  # render resolution == pixel size
+    mid = ("size", max(1, W // 2), max(1, H // 4))
+    shape = h["shape"]
+    n = rng.randrange(1, frames) if frames > 1 else 0
+    seek = (lambda k: [("seek", k)]) if frames > 1 else (lambda k: [])
+    R = ("render",)
+    if shape == "small-large":
+        return [small, R, *seek(n), large, R]
+    if shape == "large-small-large":
+        return [large, R, small, R, *seek(n), large, R, mid, R]
+    if shape == "seek":
+        return [small, R, *seek(n), large, R, *seek(0), R, *seek(frames - 1), small, R, *seek(0), large, R]
+    return [("ratio", 0.5), ("width", max(1, W // 4)), R, ("ratio", 1.0), ("width", W), R,
+            *seek(n), ("ratio", 0.25), ("width", W), R, ("ratio", 0.5), large, R]
+
+
+def history_traces(h):
+    """Run one history on ONE image object; every render is a trace judged against a FRESH copy."""
+    import term_image
+    from PIL import Image
+    from term_image.image import BlockImage
+
+    rng = random.Random(h["seed"])
+    path, pristine, frames = hist_source(h, rng)
+    tbg = tuple(h["tbg"]) if h["tbg"] else None
+    set_env(h["kitty"], tbg)
+
+    def fresh(frame):
+        im = Image.open(path) if path else pristine.copy()
+        if frames > 1:
+            im.seek(frame)
+        return im
+
+    first = fresh(0)
+    W, H = first.size
+    ops = hist_ops(h, rng, W, H, frames)
+    caller = None
+    if h["src"].startswith("pil-"):
+        caller = Image.open(path) if path else pristine.copy()  # NOT loaded: as a user hands it over
+        image = BlockImage(caller)
+    else:
+        image = BlockImage.from_file(path)
+    out_traces = []
+    try:
+        for i, op in enumerate(ops):
+            if op[0] == "size":
+                image.set_size(op[1], op[2])
+            elif op[0] == "width":
+                image.set_size(width=op[1])
+            elif op[0] == "ratio":
+                term_image.set_cell_ratio(op[1])
+            elif op[0] == "seek":
+                image.seek(op[1])
+            else:
+                alpha = rng.choice(HIST_ALPHAS)
+                split = rng.random() < 0.2
+                via = "renderer" if split else rng.choice(
+                    ["renderer", "format"] + (["str"] if alpha == 40 / 255 else []))
+                frame = image.tell() if frames > 1 else 0
+                rw, rh = image.rendered_size
+                ref = fresh(frame)
+                shape_ref = pil_shape(ref)
+                rows, thr = pixels_at_render_resolution(ref, rw, rh, alpha, tbg)
+                if via == "str":
+                    out = str(image)
+                elif via == "format":
+                    out = format(image, "1.1" + alpha_spec(alpha))
+                else:
+                    out = image._renderer(image._render_image, alpha, **({"split_cells": True} if split else {}))
+                stream = lex_checked(out, h)
+                tr = dict(rw=rw, rh=rh, kitty=bool(h["kitty"]), tbg=list(tbg or []), thr=thr,
+                          uniform=False, exp=cells_of(rows, rw, rh), srcb=shape_ref,
+                          srca=pil_shape(caller) if caller is not None else shape_ref,
+                          toks=stream.toks, gfx=[])
+                info = dict(step=i, ops=[list(o) for o in ops[: i + 1]], alpha=alpha, via=via, frame=frame,
+                            pixel_size=[W, H], native=(rw, 2 * rh) == (W, H))
+                out_traces.append((tr, info))
+    finally:
+        term_image.set_cell_ratio(0.5)
+    return out_traces
 
 
 def alpha_kind(alpha) -> str:
@@ -530,9 +669,28 @@ def tamper(trace):
     return out
 
 
-def code_to_spec(rep: Report, cases):
+def code_to_spec(rep: Report, cases, histories=()):
     traces, owners = [], []
     oracle_free = 0
+    hist_kinds = set()
+    n_single = 0
+    for h in histories:
+        try:
+            got = history_traces(h)
+        except tlc.MachineryError:
+            raise
+        except Exception as e:
+            rep.violation(
+                f"block:history:{h['src']}:render-raises:{type(e).__name__}",
+                f"a step of a multi-render history raised {type(e).__name__}: {e}; history={json.dumps(h)}",
+                {"kind": "history", "hist": h},
+            )
+            continue
+        for tr, info in got:
+            rep.evaluations += 1
+            traces.append(tr)
+            owners.append(dict(h, history=info, alpha=info["alpha"], via="history:" + h["src"]))
+            hist_kinds.add((h["src"], "native" if info["native"] else "scaled"))
     for case in cases:
         rep.evaluations += 1
         try:
@@ -549,6 +707,11 @@ def code_to_spec(rep: Report, cases):
         oracle_free += oracle == "none"
         traces.append(tr)
         owners.append(case)
+        n_single += 1
+    if histories and len(histories) >= len(HIST_KINDS):
+        missing = [k for k in HIST_KINDS if (k, "native") not in hist_kinds or (k, "scaled") not in hist_kinds]
+        if missing:
+            raise tlc.MachineryError(f"vacuous: no native-resolution / scaled history render for {missing}")
     # self-test of the binding: corrupted copies of a valid trace must be rejected
     tampered = []
     base = next((t for t in traces if t["rw"] >= 2 and any(len(x["p"]) == 5 for x in t["toks"])), None)
@@ -577,17 +740,23 @@ def code_to_spec(rep: Report, cases):
         if v["verdict"].startswith("terminal: unsupported"):
             raise tlc.MachineryError(f"Terminal.tla: {v['verdict']} for {case}")
         clause = v["verdict"].split(":")[0]
+        is_hist = "history" in case
         rep.violation(
-            f"block:{case['via']}:{clause}:{alpha_kind(case['alpha'])}",
+            f"block:{case['via']}:{clause}" + ("" if is_hist else f":{alpha_kind(case['alpha'])}"),
             f"clause {v['verdict']!r} at cell row {v['row']} col {v['col']} ({v['half']} half) of a "
             f"{tr['rw']}x{tr['rh']} render; expected cell {tr['exp'][v['row']][v['col']]} "
             f"(ur,ug,ub,ua,lr,lg,lb,la), threshold {tr['thr']}, kitty={tr['kitty']}, "
-            f"terminal bg={tr['tbg']}; case={json.dumps(case)}",
-            {"kind": "trace", "case": case},
+            f"terminal bg={tr['tbg']}; caller's image handed over as {tr['srcb']}, afterwards {tr['srca']}; "
+            + ("history on one image object (reference from a fresh copy of the source): " if is_hist else "case=")
+            + json.dumps(case),
+            {"kind": "history", "hist": {k: case[k] for k in ("src", "shape", "seed", "kitty", "tbg")}}
+            if is_hist else {"kind": "trace", "case": case},
         )
-    rep.extra["traced_renders"] = len(traces)
+    rep.extra["traced_renders"] = n_single
+    rep.extra["history_renders"] = len(traces) - n_single
+    rep.extra["histories"] = len(histories)
     rep.extra["traced_without_resampling_oracle"] = oracle_free
-    for tr, case in itertools.islice(zip(traces, owners), 3):
+    for tr, case in itertools.islice(((t, c) for t, c in zip(traces, owners) if "history" not in c), 3):
         rep.sample({"case": case, "expected_first_row": tr["exp"][0][:4],
                     "tokens": [[t["k"], t["n"], t["g"], t["p"]] for t in tr["toks"][:10]]})
 
@@ -659,6 +828,7 @@ def main(rep: Report, replay: dict | None) -> None:
     try:
         _main(rep, replay)
     finally:  # scratch files of this process
+        shutil.rmtree(OUTDIR / f"hist-{os.getpid()}", ignore_errors=True)
         for f in itertools.chain(OUTDIR.glob(f"*-{os.getpid()}.json"), (OUTDIR / "cfg").glob(f"*-{os.getpid()}.cfg")):
             f.unlink(missing_ok=True)
 
@@ -680,6 +850,9 @@ def _main(rep: Report, replay: dict | None) -> None:
         sc = replay["scenario"]
         if sc.get("kind") == "trace":
             code_to_spec(rep, [sc["case"]])
+            return
+        if sc.get("kind") == "history":
+            code_to_spec(rep, [], [sc["hist"]])
             return
         if sc.get("kind") == "line":
             e = dict(kitty=sc["par"][1], split=sc["par"][2], tbg=sc["par"][3], rows=sc["rows"],
@@ -729,7 +902,8 @@ def _main(rep: Report, replay: dict | None) -> None:
     t0 = time.time()
 
     cases = list(gen_cases(random.Random(rep.seed * 7919 + 5), rep.tier))
-    code_to_spec(rep, cases)
+    histories = list(gen_histories(random.Random(rep.seed * 15485863 + 11), rep.tier))
+    code_to_spec(rep, cases, histories)
     timing["traces"] = round(time.time() - t0, 1)
     rep.extra["exhaustive_parts"] = (
         "BlockLine free mode: all reachable loop states over the pixel alphabet for every line length; "
